@@ -45,12 +45,16 @@ var paramVals = [...]int{2, 2, 2, 2, 2, 4, 2, 2}
 type cfgSetting struct {
 	param, val int
 	builder    bool
+	raw        bool // option form only: passed as a plain func(*flyt.BaseNode) value instead of a named NodeOption
 }
 
 func (s cfgSetting) String() string {
 	f := "opt"
 	if s.builder {
 		f = "builder"
+	}
+	if s.raw {
+		f = "rawfunc-opt"
 	}
 	return fmt.Sprintf("%s=%d/%s", paramNames[s.param], s.val, f)
 }
@@ -124,12 +128,12 @@ func effective(seq []cfgSetting, builder bool) []cfgSetting {
 	var out []cfgSetting
 	for _, s := range seq {
 		if !s.builder {
-			out = append(out, cfgSetting{s.param, s.val, builder})
+			out = append(out, cfgSetting{param: s.param, val: s.val, builder: builder, raw: s.raw && !builder})
 		}
 	}
 	for _, s := range seq {
 		if s.builder {
-			out = append(out, cfgSetting{s.param, s.val, builder})
+			out = append(out, cfgSetting{param: s.param, val: s.val, builder: builder})
 		}
 	}
 	return out
@@ -153,6 +157,26 @@ func markFb(tag string) func(any, error) (any, error) {
 	return func(any, error) (any, error) { return tag, nil }
 }
 
+// baseOption builds the option value for a BaseNode parameter, either as the named NodeOption or
+// as a hand-written func(*flyt.BaseNode) preset (both are accepted by the constructors).
+func baseOption(s cfgSetting) any {
+	var o flyt.NodeOption
+	switch s.param {
+	case pRetries:
+		o = flyt.WithMaxRetries(retryVals[s.val])
+	case pWait:
+		o = flyt.WithWait(waitVals[s.val])
+	case pConc:
+		o = flyt.WithBatchConcurrency(concVals[s.val])
+	default:
+		o = flyt.WithBatchErrorHandling(errhVals[s.val])
+	}
+	if s.raw {
+		return func(n *flyt.BaseNode) { o(n) }
+	}
+	return o
+}
+
 type cfgNode interface {
 	flyt.Node
 	GetMaxRetries() int
@@ -170,14 +194,8 @@ func buildPlain(seq []cfgSetting, shuffleOpts bool) cfgNode {
 			continue
 		}
 		switch s.param {
-		case pRetries:
-			base = append(base, flyt.WithMaxRetries(retryVals[s.val]))
-		case pWait:
-			base = append(base, flyt.WithWait(waitVals[s.val]))
-		case pConc:
-			base = append(base, flyt.WithBatchConcurrency(concVals[s.val]))
-		case pErrH:
-			base = append(base, flyt.WithBatchErrorHandling(errhVals[s.val]))
+		case pRetries, pWait, pConc, pErrH:
+			base = append(base, baseOption(s))
 		case pPrepF:
 			custom = append(custom, flyt.WithPrepFunc(markPrep([]string{"prep-f", "prep-g"}[s.val])))
 		case pExecF:
@@ -251,14 +269,8 @@ func buildBatch(seq []cfgSetting, shuffleOpts bool) cfgNode {
 			continue
 		}
 		switch s.param {
-		case pRetries:
-			base = append(base, flyt.WithMaxRetries(retryVals[s.val]))
-		case pWait:
-			base = append(base, flyt.WithWait(waitVals[s.val]))
-		case pConc:
-			base = append(base, flyt.WithBatchConcurrency(concVals[s.val]))
-		case pErrH:
-			base = append(base, flyt.WithBatchErrorHandling(errhVals[s.val]))
+		case pRetries, pWait, pConc, pErrH:
+			base = append(base, baseOption(s))
 		case pExecF:
 			switch s.val {
 			case 0:
@@ -348,7 +360,10 @@ func cfgAlphabet(batch bool) []cfgSetting {
 		}
 		for v := 0; v < paramVals[p]; v++ {
 			for _, b := range []bool{false, true} {
-				out = append(out, cfgSetting{p, v, b})
+				out = append(out, cfgSetting{param: p, val: v, builder: b})
+			}
+			if p <= pErrH {
+				out = append(out, cfgSetting{param: p, val: v, raw: true})
 			}
 		}
 	}
@@ -481,7 +496,7 @@ func probeScenarios() []Scenario {
 			seq := []cfgSetting{}
 			wantN, wantW := 1, time.Duration(0)
 			if configured {
-				seq = []cfgSetting{{pRetries, ri, rForm}, {pWait, wi, wForm}}
+				seq = []cfgSetting{{param: pRetries, val: ri, builder: rForm}, {param: pWait, val: wi, builder: wForm}}
 				wantN, wantW = retryVals[ri], waitVals[wi]
 			}
 			label = fmt.Sprintf("retries=%d wait=%v", wantN, wantW)
@@ -531,7 +546,7 @@ func probeScenarios() []Scenario {
 			seq := []cfgSetting{}
 			wantC, wantStop := 0, false
 			if configured {
-				seq = []cfgSetting{{pConc, ci, cForm}, {pErrH, ei, eForm}}
+				seq = []cfgSetting{{param: pConc, val: ci, builder: cForm}, {param: pErrH, val: ei, builder: eForm}}
 				wantC, wantStop = concVals[ci], !errhVals[ei]
 			}
 			label = fmt.Sprintf("conc=%d stop=%v", wantC, wantStop)
@@ -571,6 +586,65 @@ func probeScenarios() []Scenario {
 			}
 		}
 		out = append(out, Scenario{Name: "config-probe batch concurrency+error-handling", Bound: 1, Body: body, Check: stdCheck(func() string { return label })})
+	}
+	// (2b) settings are read at run time: run, change them with the builder methods, run again
+	{
+		var label string
+		body := func() {
+			firstStop := core.Choose(2) == 1
+			c1 := concVals[core.Choose(2)]
+			c2 := concVals[core.Choose(2)]
+			useOpts := core.Choose(2) == 1 // initial configuration through options or through builder methods
+			var b *flyt.BatchNodeBuilder
+			if useOpts {
+				b = flyt.NewBatchNode(flyt.WithBatchErrorHandling(!firstStop), flyt.WithBatchConcurrency(c1))
+			} else {
+				b = flyt.NewBatchNode().WithBatchErrorHandling(!firstStop).WithBatchConcurrency(c1)
+			}
+			label = fmt.Sprintf("stop %v->%v conc %d->%d opts=%v", firstStop, !firstStop, c1, c2, useOpts)
+			var order []int
+			spawned, before := 0, 0
+			b = b.WithPrepFunc(func(context.Context, *flyt.SharedStore) ([]flyt.Result, error) {
+				return []flyt.Result{flyt.NewResult(0), flyt.NewResult(1), flyt.NewResult(2)}, nil
+			}).WithExecFunc(func(_ context.Context, it flyt.Result) (flyt.Result, error) {
+				if n := core.NumThreads() - before; n > spawned {
+					spawned = n
+				}
+				i := it.Value().(int)
+				order = append(order, i)
+				if i == 0 {
+					return flyt.Result{}, errors.New("item0")
+				}
+				return it, nil
+			})
+			runOnce := func(which string, wantStop bool, wantC int) {
+				order, spawned, before = nil, 0, core.NumThreads()
+				if _, err := flyt.Run(context.Background(), b, flyt.NewSharedStore()); err != nil {
+					core.Problem("%s failed: %v", which, err)
+				}
+				core.WaitQuiescent()
+				if spawned != wantC {
+					core.Problem("%s: batch spawned %d worker threads, configured concurrency %d (%s)", which, spawned, wantC, label)
+				}
+				if wantC == 0 {
+					if wantStop && len(order) != 1 {
+						core.Problem("%s: sequential stop-on-error batch executed items %v (%s)", which, order, label)
+					}
+					if !wantStop && len(order) != 3 {
+						core.Problem("%s: sequential continue batch executed items %v (%s)", which, order, label)
+					}
+				} else if !wantStop && len(order) != 3 {
+					core.Problem("%s: continue batch executed %d of 3 items (%s)", which, len(order), label)
+				}
+				if got := b.GetBatchErrorHandling(); (got == "stop") != wantStop {
+					core.Problem("%s: GetBatchErrorHandling() = %q (%s)", which, got, label)
+				}
+			}
+			runOnce("first run", firstStop, c1)
+			b.WithBatchErrorHandling(firstStop).WithBatchConcurrency(c2) // continueOnError = firstStop => stop = !firstStop
+			runOnce("second run after builder reconfiguration", !firstStop, c2)
+		}
+		out = append(out, Scenario{Name: "config-probe reconfigure a batch node between runs", Bound: 0, Body: body, Check: stdCheck(func() string { return label })})
 	}
 	// (3) pool size <= 0 means one worker
 	{
